@@ -163,6 +163,27 @@ def check_octets(run, o, label="octets"):
     diff = compare(ref, lib_fields(n))
     if diff:
         run.violation("decoded-npci-differs-from-reference/" + ",".join(sorted(diff)), {"octets": o[:40], "diff": diff})
+        return
+    # the same octets decoded into an object that has been used before (it still holds the previous header): what the object
+    # says afterwards is this header, nothing of the last one
+    global USED, USED_LAST
+    if USED is None:
+        USED = N.NPDU()
+    try:
+        USED.decode(PDU(o))
+    except Exception as err:
+        run.violation("decoding-into-a-used-object-raised/" + type(err).__name__, {"octets": o[:40], "previous": USED_LAST})
+        USED = None
+        return
+    run.count("decoded_into_a_used_object")
+    diff = compare(ref, lib_fields(USED))
+    if diff:
+        run.violation("decoded-into-a-used-object-differs/" + ",".join(sorted(diff)), {"octets": o[:40], "previous_octets": USED_LAST, "diff": diff})
+    USED_LAST = o[:40]
+
+
+USED = None
+USED_LAST = None
 
 
 # ----------------------------------------------------------------------
